@@ -7,9 +7,16 @@ GEN   TLC explores the muxer model with the file system as a variable, one step 
 EXEC  the input histories are replayed into a real hls.Muxer on a recording file-system layer.
 VAL   Trace_Hls replays every recorded operation into the model's file system and evaluates the
       properties after each one; it also requires the operation to be the one the model queued.
+
+Second part (run_cleanup): "delayed directory cleanup that must spare a live stream" at the level of
+logic.ServerManager (spec/HlsCleanup.tla, Trace_HlsCleanup.tla, driver hlscleanup): publisher leaves
+(timer armed) / the 1 s tick removes the inactive Group / the name is published again (same or a new Group
+object) / the timer expires / a second leave arms a second timer while the first is pending.
 """
 import glob, json, os, re
+import concurrent.futures as cf
 import engine as E
+from props.fanout_common import behaviours
 
 # (cfg, replay cap in quick tier or None = all)
 QUICK = [("MC_Hls_q_round.cfg", None), ("MC_Hls_q_ring.cfg", 450), ("MC_Hls_q_decide.cfg", 450),
@@ -108,3 +115,147 @@ def run(ctx):
                         "frames reach the muxer as Rtmp2MpegtsRemuxer delivers them: a video boundary frame is a "
                         "key frame; audio frames carry the boundary flag only in audio-only streams",
                         "timestamps are whole milliseconds (90 kHz ticks divisible by 90)"]
+    run_cleanup(ctx)
+
+
+# ----------------------------------------------------------------------------------------------------------------
+# delayed directory cleanup (ServerManager.CleanupHlsIfNeeded) against the life of the Group of the name
+
+CLEANUP_FRAG_MS = 300          # fragment_duration_ms; the timer runs 300 * (fragment_num 2 + delete_threshold 1) = 900 ms
+CLEANUP_TAGS = ["LiveSpared", "Listed", "panic", "notEnabled", "group", "muxer", "dir", "playlist", "listedEpoch",
+                "listedCount", "segmentFiles", "listedSegmentMissing"]
+
+
+def _steps(names):
+    return [{"name": n} for n in names.split()]
+
+
+# behaviours every run replays whatever the seed (each for cleanup_mode 1 and 2; without the expiries for mode 0):
+CLEANUP_DIRECTED = [
+    # the Group is removed by the tick and the name published again on a NEW Group before the timer expires
+    "PubStart Feed PubStop Tick PubStart Feed TimerFire PubStop TimerFire",
+    "PubStart PubStop Tick PubStart TimerFire Feed PubStop TimerFire",
+    # the publisher comes back before the tick / a subscriber keeps the Group: the SAME Group object
+    "PubStart Feed PubStop PubStart Tick Feed TimerFire PubStop Tick TimerFire",
+    "SubJoin PubStart Feed PubStop Tick PubStart Feed TimerFire SubLeave PubStop Tick TimerFire",
+    # a second leave arms a second timer while the first is pending; the first one removes, the second one spares
+    "PubStart Feed PubStop PubStart Feed PubStop TimerFire PubStart Feed TimerFire PubStop TimerFire",
+    "PubStart Feed PubStop Tick PubStart PubStop Tick TimerFire PubStart Feed TimerFire Feed PubStop TimerFire",
+    # nobody comes back
+    "PubStart Feed PubStop TimerFire", "PubStart PubStop Tick TimerFire SubJoin Tick SubLeave Tick",
+]
+
+
+def run_cleanup(ctx):
+    t0 = len(ctx.violations)
+    q = ctx.quick
+    design_cfg = "MC_HlsCleanup_q.cfg" if q else "MC_HlsCleanup_t.cfg"
+    emit_cfg = "MC_HlsCleanup_q_emit.cfg" if q else "MC_HlsCleanup_t_emit.cfg"
+    nsim, depth = (40, 16) if q else (600, 18)
+    jobs = {
+        "design": lambda: E.tlc(ctx, "MC_HlsCleanup", design_cfg, timeout=900, deadlock=False, workers=max(2, E.NCPU // 3)),
+        "emit": lambda: E.tlc(ctx, "MC_HlsCleanup", emit_cfg, timeout=900, deadlock=False, workers=max(2, E.NCPU // 3)),
+        "mut": lambda: E.tlc(ctx, "MC_HlsCleanup", "MC_HlsCleanup_mut.cfg", timeout=300, deadlock=False, workers=2),
+        "sim": lambda: E.tlc(ctx, "MC_HlsCleanup", "MC_HlsCleanup_sim.cfg", name="cleanup-sim", workers=1, timeout=600,
+                             deadlock=False, simulate="num=%d" % nsim, depth=depth),
+    }
+    with cf.ThreadPoolExecutor(max_workers=4) as ex:
+        futs = {k: ex.submit(f) for k, f in jobs.items()}
+        res = {k: f.result() for k, f in futs.items()}
+    E.require_design_ok(ctx, res["design"], design_cfg)
+    E.require_design_ok(ctx, res["emit"], emit_cfg)
+    if res["mut"].get("inv") != "LiveSpared":
+        raise E.Infra("design check is insensitive: a timer that remembers the Group object of arming time passes LiveSpared "
+                      "(%s)" % res["mut"]["errors"][:2])
+    if res["sim"]["errors"]:
+        raise E.Infra("simulation found a model error in HlsCleanup: %s" % res["sim"]["errors"][:2])
+    ctx.log("cleanup design %s: %d distinct states, LiveSpared / Listed / Cleaned / NeverCleaned hold; the design mutant "
+            "(timer captures the Group of arming time) violates LiveSpared" % (design_cfg, res["design"]["distinct"]))
+
+    scen, seen = [], set()
+
+    def add(mode, steps, src):
+        key = (mode, tuple(s["name"] for s in steps))
+        if key in seen or not steps:
+            return
+        seen.add(key)
+        scen.append({"sc": len(scen), "src": src, "mode": mode, "fragMs": CLEANUP_FRAG_MS, "steps": [{"name": s["name"]} for s in steps]})
+
+    for d in CLEANUP_DIRECTED:
+        for mode in (1, 2, 0):
+            add(mode, [s for s in _steps(d) if mode != 0 or s["name"] != "TimerFire"], "directed")
+    ndir = len(scen)
+    # edge cover of the small configuration.  The mode is part of the state: one graph for mode 0 (no timers) and one
+    # for mode 1, whose graph is the graph of mode 2 as well (the two differ inside the muxer only)
+    graphs = {0: E.Graph(), 1: E.Graph()}
+    for e in E.emitted(res["emit"], "@E@"):
+        graphs[e["f"]["mode"]].add(e)
+    nedges = sum(g.nedges for g in graphs.values())
+    covers = {m: g.edge_cover(ctx.rng, max_len=18)[0] for m, g in graphs.items()}
+    # the quick tier replays the whole cover for one of the modes 1 / 2 (chosen by the seed) and a third of it for the
+    # other; mode 0 (no timers, no waiting) is always replayed in full
+    full = 1 + ctx.seed % 2
+    for mode in (0, 1, 2):
+        ps = covers[min(mode, 1)]
+        if q and mode not in (0, full):
+            ps = ctx.rng.sample(ps, max(1, len(ps) // 3))
+        if not q and len(ps) > 900:
+            ps = ctx.rng.sample(ps, 900)
+        for p in ps:
+            add(mode, p, emit_cfg)
+    ncover = len(scen) - ndir
+    bs = behaviours(res["sim"])
+    for b in bs:
+        # (the mode of a simulated behaviour is not part of the action labels: both are replayed)
+        for mode in ((1, 2) if not q else (1 + (len(scen) % 2),)):
+            add(mode, b, "sim")
+    ctx.log("cleanup scenarios: %d directed, %d from the edge cover of %s (%d states, %d edges, all covered by %d paths), "
+            "%d simulated" % (ndir, ncover, emit_cfg, res["emit"]["distinct"], nedges, sum(map(len, covers.values())),
+                              len(scen) - ndir - ncover))
+    sp, tp = ctx.path("cleanup-scen.ndjson"), ctx.path("cleanup-trace.ndjson")
+    E.write_ndjson(sp, scen)
+    E.run_driver(ctx, "hlscleanup", sp, tp, timeout=3600, extra=["par=%d" % (64 if q else 96)])
+    rows = E.read_ndjson(tp)
+    lates = [r for r in rows if r.get("ev") == "late"]
+    if lates:
+        raise E.Infra("hlscleanup: %d scenario(s) missed a real-time bound twice (machine too busy?): %s" %
+                      (len(lates), json.dumps(lates[0])))
+    fires = [r for r in rows if r.get("ev") == "TimerFire"]
+    spared = sum(1 for r in fires if r["obs"]["mux"] and r["obs"]["dir"])
+    removed = sum(1 for r in fires if not r["obs"]["dir"])
+    nsteps = sum(1 for r in rows if r.get("ev") not in ("reset", "late"))
+    ctx.log("cleanup driver: %d scenarios, %d steps observed, %d timer expiries (%d spared a live stream, %d removed the "
+            "directory)" % (len(scen), nsteps, len(fires), spared, removed))
+    ctx.add("traces_validated_against_impl", len(scen))
+    ctx.add("evaluations", nsteps)
+    ctx.add("distinct_nontrivial", len(scen))
+    ctx.cov["rule"] = (ctx.cov.get("rule", "") + " || cleanup part: scenario = init-rooted path of the HlsCleanup state graph "
+                       "(edge cover per cleanup_mode), a TLC-simulated behaviour of the larger configuration or a directed "
+                       "behaviour, replayed into a real logic.ServerManager (customize-pub input fed with H.264 + AAC, "
+                       "HTTP-FLV subscriber, VerifTick, real 900 ms cleanup timers); every step is one validated trace line "
+                       "carrying the observed group identity / muxer / directory / playlist / segment files")
+    ctx.sample({k: scen[0][k] for k in ("mode", "fragMs", "steps")})
+    rej = E.validate(ctx, "Trace_HlsCleanup", "Trace_HlsCleanup.cfg", rows)
+    why = {}
+    for out in glob.glob(ctx.path("tlc-val-Trace_HlsCleanup-s*", "out.txt")):
+        with open(out, errors="replace") as f:
+            for line in f:
+                if line.startswith('"@WHY@'):
+                    w = json.loads(json.loads(line)[5:])
+                    why[(w["sc"], w["line"])] = w["why"]
+    for r in rej:
+        w = why.get((r["sc"], r["line"]), [])
+        first = ([t for t in CLEANUP_TAGS if t in w] or ["early" if any(x.startswith("early:") for x in w) else "unknown"])[0]
+        ev = r["event"]
+        E.report(ctx, "Cleanup:%s:%s" % (ev.get("ev"), first),
+                 "cleanup trace rejected (%s) at line %d of scenario %s (mode %s): %s after %s" %
+                 (", ".join(w) or "?", r["line"], r["sc"], r["trace"][0].get("mode"), json.dumps(ev),
+                  " ".join(x.get("ev") for x in r["trace"][1:r["line"]])),
+                 {"scenario": scen[r["sc"]] if r["sc"] is not None and r["sc"] < len(scen) else None,
+                  "why": w, "trace": r["trace"][:r["line"] + 1]})
+    if len(ctx.violations) == t0 and (spared == 0 or removed == 0):
+        raise E.Infra("vacuous cleanup run: no timer expiry spared a live stream / removed a directory")
+    ctx.assumptions += ["cleanup part: steps are atomic (an expiry that races with a publisher's arrival inside lal is not "
+                        "enumerated); the expiry of a real timer is observed %d ms after it is due, steps placed before it end "
+                        "100 ms earlier, a scenario that misses a bound is run again and never judged" % 200,
+                        "cleanup part: at most two timers pending at once (what the 900 ms delay lets the driver tell apart)"]
